@@ -311,9 +311,10 @@ theorem C04_overrun_is_error {α : Type} (dc : DataCoder α) (s : SectionLayout)
   layout order, values related by `RT.PRel`:
     integers and flags as supplied (the back-patched `section_length` / `length` excepted: their decoded
     values are the real extents, `C04_decode_consumes_declared`, `C04_encoded_frame`), bytes blank-padded or
-    cut to the width, a zero-width `bin` extended by the section's zero padding, a descriptor list possibly
-    extended by null descriptors when an over-declared section length is honoured, the template data
-    parameter `PVal.data`. -/
+    cut to the width, a zero-width `bin` extended by the section's zero padding, a descriptor list exactly
+    as supplied when the encoder recomputes lengths (`cfg.ignoreDeclared = true`, the first argument of
+    `PRel`/`RegRel`/`SecsRel`) and otherwise possibly extended by null descriptors read from the zero fill
+    of an over-declared section whose length is honoured, the template data parameter `PVal.data`. -/
 
 /-- the bundled family meets the extra conditions -/
 theorem C04_bundled_layouts_rt : RT.LayoutsOK Gen.layouts = true := by decide
@@ -332,11 +333,11 @@ theorem C04_decode_encode {α : Type} (L : Layouts) (hL : L.WF = true) (hok : RT
     (h : encode L cfg vals payload = .ok r)
     (hvals : ∀ v ∈ RT.encodeVisits L cfg vals payload, RT.valsOK v.s.params v.vs = true)
     (hdec : ∀ v ∈ RT.encodeVisits L cfg vals payload, RT.hasData v.s.params = true →
-      ∀ rD, RT.RegRel (register v.reg v.start 0 (RT.beforeData v.s.params) v.vs) rD →
+      ∀ rD, RT.RegRel (cfg.ignoreDeclared = true) (register v.reg v.start 0 (RT.beforeData v.s.params) v.vs) rD →
         ∀ x, dc.dec rD (payload ++ x) = .ok (a, x))
     (t : List UInt8) :
     ∃ m, decode L dc {} (r.bytes ++ t) = .ok m ∧ m.serialized = r.bytes ∧ m.nbits = 8 * r.bytes.length ∧
-      RT.SecsRel (RT.encodeVisits L cfg vals payload) m.sections ∧
+      RT.SecsRel (cfg.ignoreDeclared = true) (RT.encodeVisits L cfg vals payload) m.sections ∧
       m.data = (if RT.visitsHaveData (RT.encodeVisits L cfg vals payload) = true then some a else none) := by
   -- the start signature
   obtain ⟨_, _, b0, _, mid, _, _, hb0, _, hbytes, _⟩ := C04_encoded_frame L hL cfg vals payload r h
@@ -378,7 +379,7 @@ theorem C04_decode_encode {α : Type} (L : Layouts) (hL : L.WF = true) (hok : RT
   have hwb : bytesToBits (bitsToBytes w) = w := bytesToBits_bitsToBytes (w.length / 8) w (by omega)
   have hwlen : w.length = 8 * (bitsToBytes w).length := by
     have := bytesToBits_length (bitsToBytes w); rw [hwb] at this; exact this
-  obtain ⟨secs, hsecs, hrun⟩ := RT.encodeBits_rt dc a hL hok hbits hvals hdec
+  obtain ⟨secs, hsecs, hrun⟩ := RT.encodeBits_rt dc a hL hok (fun hx => hx) hbits hvals hdec
   simp only at hfind hbb ⊢
   refine ⟨{ sections := secs,
              data := if RT.visitsHaveData (RT.encodeVisits L cfg vals payload) = true then some a else none,
@@ -396,7 +397,7 @@ theorem C04_decode_encode_anyreg {α : Type} (L : Layouts) (hL : L.WF = true) (h
     (hvals : ∀ v ∈ RT.encodeVisits L cfg vals payload, RT.valsOK v.s.params v.vs = true)
     (hdec : ∀ reg x, dc.dec reg (payload ++ x) = .ok (a, x)) (t : List UInt8) :
     ∃ m, decode L dc {} (r.bytes ++ t) = .ok m ∧ m.serialized = r.bytes ∧ m.nbits = 8 * r.bytes.length ∧
-      RT.SecsRel (RT.encodeVisits L cfg vals payload) m.sections :=
+      RT.SecsRel (cfg.ignoreDeclared = true) (RT.encodeVisits L cfg vals payload) m.sections :=
   let ⟨m, h1, h2, h3, h4, _⟩ := C04_decode_encode L hL hok cfg vals payload r dc a hsig h hvals
     (fun _ _ _ rD _ x => hdec rD x) t
   ⟨m, h1, h2, h3, h4⟩
